@@ -268,3 +268,33 @@ func VH_C07_concurrent_rotation() {
 	}
 	verifReach("C07.rotation.done", true)
 }
+
+// longer histories with one handshake presented three times: a refused replay is itself one of
+// the handshakes the server checked, so a further replay within N of it is refused as well,
+// wherever the rotations of the two generations fall (N = 4..8, up to 2N fresh handshakes
+// between the presentations; the fresh handshakes are concrete and distinct)
+func VH_C07_replay_of_a_refused_replay() {
+	n := 4 + verifChoice("capacity", 5)
+	c := NewReplayCache(n)
+	next := 0
+	h := []byte{0xaa, 0xbb, 0xcc, 0xdd}
+	verifAssert("C07.long.first-presentation-accepted", c.Add("a", h))
+	last, i := 0, 0
+	for round := 0; round < 2; round++ {
+		gap := verifChoice("fresh-handshakes-in-between", 2*n+1)
+		for k := 0; k < gap; k++ {
+			next++
+			c.Add("a", []byte{byte(next), byte(next >> 8), 7, 7})
+			i++
+		}
+		i++
+		ok := c.Add("a", h)
+		if i-last <= n {
+			// h is among the most recent n handshakes checked (accepted or refused)
+			verifAssert("C07.long.recent-handshake-refused", !ok)
+			verifReach("C07.long.second-replay-within-history", round == 1)
+		}
+		last = i
+	}
+	verifReach("C07.long.done", true)
+}
